@@ -19,7 +19,7 @@
 //!    never panics; accepted => parse(print(v)) == v.
 use crate::engine::bfs;
 use crate::engine::catch;
-use crate::engine::report::{Ctx, Report, Samples, Violations};
+use crate::engine::report::{Ctx, Report, Samples, Tier, Violations};
 use crate::engine::util::{hash128, hash64};
 use crate::model::keymap::{matcher_demands, sound, Dict, Displaced, Expect, Lookup};
 use rayon::prelude::*;
@@ -388,6 +388,43 @@ fn check_override(probes: &Probes, b1: &Built, b2: &Built) -> Option<(String, St
     compare(&ro, &mo, probes).map(|(k, d)| {
         (k, format!("m1 = {}, m2 = {}: after m1.register_override(&m2): {}", show_listing(&b1.1.list()), show_listing(&b2.1.list()), d))
     })
+}
+
+/// names of the pair sweep: a character, its upper case, a function key, a named key, a pointer key
+fn pair_names() -> Vec<KeyName> {
+    vec![KeyName::Char('a'), KeyName::Char('A'), KeyName::F(1), KeyName::Tab, KeyName::MouseLeft]
+}
+
+/// Two keys (name index, modifier bits) bound to 1 and 2 in one map, one key each and as second key behind a
+/// common first key. Different keys are different chords: both stay bound with their own values, the listing has
+/// two entries; the same key twice is a re-registration.
+fn check_key_pair(k1: (usize, u32), k2: (usize, u32)) -> Option<(String, String)> {
+    let names = pair_names();
+    let a = Key::new(names[k1.0].clone(), KeyMod::from_bits(k1.1));
+    let b = Key::new(names[k2.0].clone(), KeyMod::from_bits(k2.1));
+    let lead = Key::new(KeyName::Char('x'), KeyMod::EMPTY);
+    let same = k1 == k2;
+    for nested in [false, true] {
+        let chord = |k: &Key| if nested { vec![lead.clone(), k.clone()] } else { vec![k.clone()] };
+        let mut map: KeyMap<usize> = KeyMap::new();
+        map.register(chord(&a), 1);
+        map.register(chord(&b), 2);
+        let got_a = real_lookup(&map, &chord(&a));
+        let got_b = real_lookup(&map, &chord(&b));
+        let mut listed = 0;
+        map.for_each(|_, _| listed += 1);
+        let want_a = if same { Lookup::Success(2) } else { Lookup::Success(1) };
+        if got_a != want_a || got_b != Lookup::Success(2) || listed != if same { 1 } else { 2 } {
+            return Some((
+                if same { "pair:re-registration".to_string() } else { "pair:distinct-keys-confused".to_string() },
+                format!(
+                    "{}{:?} -> 1 then {}{:?} -> 2: lookup of the first gives {:?}, of the second {:?}, for_each lists {} binding(s)",
+                    if nested { "x " } else { "" }, a, if nested { "x " } else { "" }, b, got_a, got_b, listed
+                ),
+            ));
+        }
+    }
+    None
 }
 
 fn show_hist(h: &[Vec<u8>]) -> String {
@@ -930,6 +967,30 @@ pub fn run(ctx: &Ctx) -> Result<Report, String> {
     });
     capped |= ctx.over_cap();
 
+    // 2b. every pair of keys over 5 names x all 512 modifier sets, bound in one map
+    let pair_keys: Vec<(usize, u32)> = (0..pair_names().len()).flat_map(|n| (0..512u32).map(move |b| (n, b))).collect();
+    let key_pairs = AtomicU64::new(0);
+    pair_keys.par_iter().for_each(|k1| {
+        if ctx.over_cap() {
+            return;
+        }
+        for k2 in &pair_keys {
+            // quick: the same name with every pair of modifier sets, other names with the modifier sets that differ in at most one bit
+            if ctx.tier == Tier::Quick && k1.0 != k2.0 && (k1.1 ^ k2.1).count_ones() > 1 {
+                continue;
+            }
+            key_pairs.fetch_add(1, Ordering::Relaxed);
+            let w = || json!({"kind": "key-pair", "first": [k1.0 as u64, k1.1 as u64], "second": [k2.0 as u64, k2.1 as u64]});
+            match catch(|| check_key_pair(*k1, *k2)) {
+                Err(p) => viol.add(format!("pair:{}", p.key()), format!("panicked: {}", p.message), w()),
+                Ok(Some((k, d))) => viol.add(k, d, w()),
+                Ok(None) => {}
+            }
+        }
+    });
+    capped |= ctx.over_cap();
+    lap("key-pairs", &mut timing);
+
     lap("override", &mut timing);
     // 3. stateful matcher
     let hchords = chords(&HANDLER_CHORD_KEYS, 1, 3);
@@ -1155,6 +1216,7 @@ pub fn run(ctx: &Ctx) -> Result<Report, String> {
             }),
         )
         .set("override", json!({"maps": maps.len(), "ordered_pairs": pairs, "pairs_with_overlapping_chords": ld(&nontrivial_pairs)}))
+        .set("key_pairs", json!({"names": pair_names().iter().map(|n| format!("{n:?}")).collect::<Vec<_>>(), "modifier_sets": 512, "ordered_pairs_bound_in_one_map": ld(&key_pairs)}))
         .set(
             "matcher",
             json!({
@@ -1193,6 +1255,18 @@ pub fn replay(w: &Value) -> Result<(bool, String), String> {
                 Err(p) => (true, format!("panicked: {} ({}:{})", p.message, p.file, p.line)),
                 Ok(Err((k, d))) => (true, format!("[{k}] {d}")),
                 Ok(Ok(obs)) => (false, format!("history [{}]: library agrees with the dictionary model; for_each {}", show_hist(&hist), show_listing(&obs.listing))),
+            })
+        }
+        "key-pair" => {
+            let g = |v: &Value| -> Result<(usize, u32), String> { Ok((v[0].as_u64().ok_or("pair")? as usize, v[1].as_u64().ok_or("pair")? as u32)) };
+            let (k1, k2) = (g(&w["first"])?, g(&w["second"])?);
+            if k1.0 >= pair_names().len() || k2.0 >= pair_names().len() {
+                return Err("name index".into());
+            }
+            Ok(match catch(|| check_key_pair(k1, k2)) {
+                Err(p) => (true, format!("panicked: {} ({}:{})", p.message, p.file, p.line)),
+                Ok(Some((k, d))) => (true, format!("[{k}] {d}")),
+                Ok(None) => (false, format!("keys {:?} and {:?}: both bound with their own values", k1, k2)),
             })
         }
         "override" => {
